@@ -230,3 +230,48 @@ impl ConfigReloader {
         Ok(rate)
     }
 }
+
+/// verification hook: the private reloader, stepped by hand instead of by its thread
+#[cfg(feature = "verif_hooks")]
+pub struct VerifReloader(ConfigReloader);
+
+#[cfg(feature = "verif_hooks")]
+impl VerifReloader {
+    /// Reads the file exactly as `init_file` does (format, source, mtime) and returns the initial
+    /// configuration, its refresh rate and a reloader bound to `handle`.
+    pub fn new(
+        path: &Path,
+        deserializers: Deserializers,
+        handle: Handle,
+    ) -> anyhow::Result<(Config, Option<Duration>, VerifReloader)> {
+        let path = path.to_path_buf();
+        let format = Format::from_path(&path)?;
+        let source = read_config(&path)?;
+        let modified = fs::metadata(&path).and_then(|m| m.modified()).ok();
+        let config = format.parse(&source)?;
+        let refresh_rate = config.refresh_rate();
+        let config = deserialize(&config, &deserializers);
+        Ok((
+            config,
+            refresh_rate,
+            VerifReloader(ConfigReloader {
+                path,
+                format,
+                source,
+                modified,
+                deserializers,
+                handle,
+            }),
+        ))
+    }
+
+    /// One iteration of the reloader loop (without the sleep).
+    pub fn step(&mut self, rate: Duration) -> anyhow::Result<Option<Duration>> {
+        self.0.run_once(rate)
+    }
+
+    /// Forget the remembered mtime, as when mtime is unavailable on the platform.
+    pub fn forget_mtime(&mut self) {
+        self.0.modified = None;
+    }
+}
